@@ -590,3 +590,60 @@ def _num_domain(tier, seed):
 
 
 _R["ecdsa.der.encode_number"].domain = _num_domain
+
+
+# ---- round trip of one sub-identifier: read_number(subid(n) ++ rest) == (n, len subid(n)) ---------------------------------
+# read_number's contract speaks of b128 (left fold over the octets), the encoder's of q128 (digits of n): the bridge
+#     for all k <= L:  b128(s, k) == q128(n, L - k)        (s = subid(n) ++ rest, L = subid_len(n))
+# is proved by induction on k, written out as two obligations (base, step) the way a recursive lemma with a decreases clause is in
+# Dafny / Verus; the induction principle over the naturals is the one meta-step (listed in the evidence).  The third path uses
+# the instance k = L of the proved statement together with read_number's CONTRACT (not its body).
+@lemma("der.roundtrip_number", props=["C11"])
+def _(ex):
+    n = ex.fresh_int("n")
+    rest = ex.fresh_bytes("rest")
+    ex.assume(n >= 0)
+    L = S.subid_len(n)
+    s = ex.name_bytes(cat(S.subid(n), rest), "input")
+    q128_facts(ex, n, 0)
+    which = ex.choose(4)
+    if which == 2:
+        # the two instances of the concatenation axiom that the last path adds to its path condition
+        ex.oblige("lemma:der.roundtrip_number#octets-of-the-prefix", And_(eq(at(s, 0), at(S.subid(n), 0)), eq(at(s, L - 1), at(S.subid(n), L - 1))), "lemma")
+        return
+    if which == 0:
+        b128_facts(ex, s)
+        ex.oblige("lemma:der.roundtrip_number#induction-base", eq(b128(s, 0), q128(n, L)), "lemma")
+        return
+    if which == 1:
+        k = ex.fresh_int("k")
+        ex.assume(And_(0 <= k, k < L, eq(b128(s, k), q128(n, L - k))))
+        b128_facts(ex, s, k)
+        q128_facts(ex, n, L - k - 1)
+        ex.oblige("lemma:der.roundtrip_number#induction-step", eq(b128(s, k + 1), q128(n, L - (k + 1))), "lemma")
+        return
+    ex.assumptions.add("induction over the naturals applied to the discharged obligations lemma:der.roundtrip_number#induction-base / #induction-step")
+    ex.pc.append(B128(_T(s), _T(L)) == Q128(_T(n), 0))                  # the instance k = L
+    q128_facts(ex, n, L - 1, L)
+    # the two octets the argument turns on, named so that the quantified clauses (continuation bits, subid_at) are instantiated there
+    first, last = ex.fresh_int("first_octet"), ex.fresh_int("last_octet")
+    ex.pc.append(_T(first) == _sym.AT(_T(s), 0))
+    ex.pc.append(_T(last) == _sym.AT(_T(s), _T(L) - 1))
+    ex.pc.append(_T(first) == _sym.AT(_T(S.subid(n)), 0))               # proved on the path above (#octets-of-the-prefix)
+    ex.pc.append(_T(last) == _sym.AT(_T(S.subid(n)), _T(L) - 1))
+    r = ex.call_noraise("decode", "ecdsa.der.read_number", s)
+    ex.oblige("lemma:der.roundtrip_number#value", And_(eq(r[1], L), eq(r[0], n)), "lemma")
+
+
+from pyvc.contract import LEMMAS as _LEMMAS                   # noqa: E402
+_LEMMAS["der.roundtrip_number"].theories = {"b128"}
+
+
+def _num_cases(tier):
+    for v in list(range(0, 700)) + [2 ** (7 * k) + d for k in range(1, 12) for d in (-1, 0, 1)] + [2 ** 64, 10 ** 30]:
+        for rest in _rests() + [b"\x80", b"\x81\x00"]:
+            e = S.subid(v)
+            yield "decode", [e + rest], (v, len(e)), dict(n=str(v), rest="hex:" + rest.hex())
+
+
+_rt_concrete("der.roundtrip_number", "ecdsa.der.read_number", _num_cases)
